@@ -6,7 +6,7 @@
 
 use std::{error::Error, fmt, str::FromStr};
 
-use onig::{Regex, RegexOptions, Syntax, SyntaxOperator};
+use onig::{MatchParam, Regex, RegexOptions, SearchOptions, Syntax, SyntaxOperator};
 
 use super::{Matcher, MatcherIO, WalkEntry};
 
@@ -138,8 +138,19 @@ impl RegexMatcher {
 
 impl Matcher for RegexMatcher {
     fn matches(&self, file_info: &WalkEntry, _: &mut MatcherIO) -> bool {
-        self.regex
-            .is_match(file_info.path().to_string_lossy().as_ref())
+        let path = file_info.path().to_string_lossy();
+        // Not `Regex::is_match`: it panics when the matcher gives up (e.g. on
+        // its backtracking limit). Such a path is reported as not matching.
+        matches!(
+            self.regex.match_with_param(
+                path.as_ref(),
+                0,
+                SearchOptions::SEARCH_OPTION_NONE,
+                None,
+                MatchParam::default(),
+            ),
+            Ok(Some(len)) if len == path.len()
+        )
     }
 }
 
